@@ -86,6 +86,18 @@ def run_contracts(run, contracts_module, timeout_ms=10000, only=None, procs=None
     refuted = []
     for r in results:
         for o in r["obligations"]:
+            if o["status"] == REFUTED and any("imprecise" in str(n_) for n_ in (o.get("notes") or [])):
+                # the path went through a statement the engine does not model (its write set was havocked): a counter-model
+                # there may be an artefact of the over-approximation.  It counts only if it replays on the real code.
+                from . import replay_block
+
+                try:
+                    o["replayed"] = replay_block.replay_any(contracts_module, o)
+                except Exception:
+                    o["replayed"] = None
+                if o["replayed"] is None:
+                    o["status"] = UNDECIDED
+                    o["backend"] = "%s (counter-model only under an over-approximated statement, not reproducible on the real code: undecided)" % o["backend"]
             run.add(o["name"], o["status"], o["backend"], o["time"],
                     detail="path %s (line %s)" % (" ".join(o["trace"]), o["lineno"]),
                     model=o["model"], smt2=o["smt2"], notes=o["notes"])
